@@ -8,7 +8,7 @@ PROPS = {
     'C17': dict(sim=[_Z], modelled='0-RTT end-to-end (system simulator, scenario zrtt): resumption with early data written before the handshake completes, acceptance or rejection by the server (fresh TLS state), loss masks on the first flights; content oracle on both outcomes (accepted: delivered once; rejected: nothing from the attempt reaches the application, the client restarts on fresh streams), no flow-control error between honest peers, completion'),
     'C02': dict(sim=[_Z]),
     'C05': dict(sim=[_Z, _X]),
-    'C01': dict(sim=[_X, _Z], modelled='end-to-end delivery (system simulator, scenarios xfer and zrtt): content/prefix/disjointness/fin oracle on every stream of both real endpoints under loss, duplication, reordering, corruption, truncation and replay'),
+    'C01': dict(micro=['streams'], sim=[_X, _Z], modelled='Recv::ingest / StreamsState::received (what reaches the Assembler) through the exact `streams` micro-differential; end-to-end delivery (system simulator, scenarios xfer and zrtt): content/prefix/disjointness/fin oracle on every stream of both real endpoints under loss, duplication, reordering, corruption, truncation and replay'),
     'C06': dict(sim=[_X]),
     'C11': dict(sim=[_X]),
     'C12': dict(sim=[_X, ('migrate', 12, 200)], modelled='in-flight accounting end-to-end (scenarios xfer, migrate): bytes in flight return to zero once everything is acknowledged; aborted and completed migrations (packets abandoned with the path)'),
